@@ -61,8 +61,12 @@ class MultipleOf(Validator):
     def _validate(self, value: Any):
         multiple_of = self.params["multipleOf"]
         if isinstance(multiple_of, float):
-            quotient = value / multiple_of
-            if int(quotient) != quotient:
+            try:
+                quotient = value / multiple_of
+                is_multiple = int(quotient) == quotient
+            except OverflowError:
+                is_multiple = False
+            if not is_multiple:
                 raise ValidationError
             return
         if value % multiple_of:
